@@ -336,7 +336,7 @@ impl<'a> ScriptGen<'a> {
             0 | 1 => out.push(Step::SaveRemote { slot: rng.pick(&slots).to_string(), addr: peer.addr.clone(), ty: rng.pick(&tys).clone(), form: rng.below(2) as u8 }),
             4 => {
                 // any string is an address as far as the handle is concerned
-                const ODD: [&str; 8] = ["", "we\"ird", "back\\slash", "tab\there", "line\nbreak", "uni\u{e9}\u{4e16}", "ctl\u{1}x", "sp ace/colon:"];
+                const ODD: [&str; 12] = ["", "we\"ird", "back\\slash", "tab\there", "line\nbreak", "uni\u{e9}\u{4e16}", "ctl\u{1}x", "sp ace/colon:", "trail ", "nl\n", " lead", "nbsp\u{a0}"];
                 let all: Vec<String> = rt::registry::all().into_iter().map(|(k, _)| k.clone()).collect();
                 // also: long strings, and long strings that differ from one another in a single byte
                 let addr = match rng.below(4) {
